@@ -74,7 +74,7 @@ theorem local_naive_south (z : RangeZone) (on off₀ on' off ny lo hi : Int)
     (the `_tzinfo` machinery with tzlocal's own `is_ambiguous`) round-trips. -/
 theorem roundtrip_local (z : RangeZone) (off lo hi t : Int) (hd : z.hasdst = true) (hs : 0 < z.saving)
     (hN : ∀ w, lo - z.saving ≤ w → w < hi → localNaiveIsdst z w = decide (w < off))
-    (hx1 : lo ≤ t + z.stdOff) (hx2 : t + z.stdOff + z.saving < hi) :
+    (hx1 : lo ≤ t + z.stdOff) (hx2 : t + z.stdOff < hi) (hx3 : t + z.stdOff < off → t + z.stdOff + z.saving < hi) :
     let g := localZone z
     g.utcoffset (g.fromutc t) = (g.fromutc t).wall - t ∧ g.toUtc (g.fromutc t) = t ∧
     (g.fromutc t).wall = (if t + z.stdOff < off then t + z.stdOff + z.saving else t + z.stdOff) ∧
@@ -85,6 +85,6 @@ theorem roundtrip_local (z : RangeZone) (off lo hi t : Int) (hd : z.hasdst = tru
     simp only [g, localZone]
     unfold RangeZone.saving
     split <;> omega
-  exact GenericZone.roundtrip g z.stdOff z.saving off lo hi t hs hsem hamb h0 hx1 hx2
+  exact GenericZone.roundtrip g z.stdOff z.saving off lo hi t hs hsem hamb h0 hx1 hx2 hx3
 
 end TZ
